@@ -1,9 +1,11 @@
 package stress
 
 import (
+	"bytes"
 	"context"
 	"encoding/json"
 	"fmt"
+	"google.golang.org/genproto/googleapis/api/annotations"
 	"math/rand"
 	"net/http"
 	"strings"
@@ -54,6 +56,13 @@ type connEnv struct {
 	// bad exposes a service whose LAST method carries a rule that larking
 	// must refuse: its registration fails after most of the work is done
 	bad *backend.Backend
+	// sw serves service Z. It is registered (valid descriptors) before a
+	// history starts; during the history its reflection hands out a newer
+	// revision whose last method is invalid, so re-registering the SAME
+	// connection is refused: Z must keep being served throughout.
+	sw              *backend.Backend
+	fdZgood, fdZbad protoreflect.FileDescriptor
+	gated           *backend.Backend // reflection answers only when released
 }
 
 func newConnEnv() (*connEnv, error) {
@@ -102,6 +111,39 @@ func newConnEnv() (*connEnv, error) {
 		e.Close()
 		return nil, err
 	}
+	mkZ := func(bad bool) (protoreflect.FileDescriptor, error) {
+		fz := &vschema.File{Path: "vf/cz.proto", Pkg: "vf.cz"}
+		svcZ := vschema.Service{Name: "Z"}
+		for m := 0; m < 6; m++ {
+			svcZ.Methods = append(svcZ.Methods, vschema.Method{Name: fmt.Sprintf("Me%d", m), In: "vf.Req", Out: "vf.Rsp", Rule: getRule(fmt.Sprintf("/cz/m%d/{a}", m))})
+		}
+		last := vschema.Method{Name: "Last", In: "vf.Req", Out: "vf.Rsp", Rule: getRule("/cz/last/{a}")}
+		if bad {
+			// the newer revision: one more route on the first method, and a
+			// last method that larking must refuse
+			svcZ.Methods[0].Rule = &annotations.HttpRule{Pattern: &annotations.HttpRule_Get{Get: "/cz/m0/{a}"}, AdditionalBindings: []*annotations.HttpRule{getRule("/cz/v2/m0/{a}")}}
+			last.Rule = getRule("/cz/last/{no_such_field}")
+		}
+		svcZ.Methods = append(svcZ.Methods, last)
+		fz.Services = []vschema.Service{svcZ}
+		return fz.Build()
+	}
+	if e.fdZgood, err = mkZ(false); err != nil {
+		e.Close()
+		return nil, err
+	}
+	if e.fdZbad, err = mkZ(true); err != nil {
+		e.Close()
+		return nil, err
+	}
+	if e.sw, err = backend.StartDelayed("sw", true, 300*time.Microsecond, backend.Svc{SD: e.fdZgood.Services().ByName("Z"), Impl: taggedImpl{"sw"}}); err != nil {
+		e.Close()
+		return nil, err
+	}
+	if e.gated, err = backend.Start("gated", true, backend.Svc{SD: fdY.Services().ByName("Y"), Impl: taggedImpl{"gated"}}); err != nil {
+		e.Close()
+		return nil, err
+	}
 	return e, nil
 }
 
@@ -109,8 +151,10 @@ func (e *connEnv) Close() {
 	for _, b := range e.backs {
 		b.Close()
 	}
-	if e.bad != nil {
-		e.bad.Close()
+	for _, b := range []*backend.Backend{e.bad, e.sw, e.gated} {
+		if b != nil {
+			b.Close()
+		}
 	}
 }
 
@@ -158,7 +202,7 @@ var connModel = porcupine.Model{
 	},
 }
 
-var refusedProbes int64
+var refusedProbes, refreshProbes int64
 
 var longQuery = func() string {
 	var sb strings.Builder
@@ -202,6 +246,18 @@ func runConnHistory(r *mon.Run, e *connEnv, rng *rand.Rand, readers, writers int
 		r.Inconclusive("baseline registration: " + err.Error())
 		return
 	}
+	e.sw.SetFiles(e.fdZgood)
+	{
+		ctx, cancel := context.WithTimeout(context.Background(), 20*time.Second)
+		err := mux.RegisterConn(ctx, e.sw.CC)
+		cancel()
+		if err != nil {
+			r.Inconclusive("registration of the switchable back-end: " + err.Error())
+			return
+		}
+	}
+	e.sw.SetFiles(e.fdZbad)
+	defer e.sw.SetFiles(e.fdZgood)
 	rec := &recorder{start: time.Now()}
 	type cop struct {
 		c    int
@@ -249,6 +305,24 @@ func runConnHistory(r *mon.Run, e *connEnv, rng *rand.Rand, readers, writers int
 					}
 					if resp.Code != 200 {
 						viol("baseline-request-failed-during-conn-registration", fmt.Sprintf("request for the local baseline method answered %d during RegisterConn/DropConn", resp.Code))
+					}
+					continue
+				}
+				if lr.Intn(6) == 0 {
+					// Z stays registered: the refused refresh of its
+					// connection must not be observable
+					path := []string{"/cz/m0/v", "/cz/m5/v", "/cz/last/v"}[lr.Intn(3)]
+					resp := wire.Serve(mux, wire.BodyRequest("GET", path, "", nil, nil))
+					atomic.AddInt64(&refreshProbes, 1)
+					if resp.Panic != nil {
+						viol(resp.Panic.Key(), "request panicked: "+resp.Panic.Value)
+						return
+					}
+					if resp.Code != http.StatusOK || !strings.Contains(string(resp.Body), `"sw"`) {
+						viol("registered-service-disturbed-by-refused-refresh", fmt.Sprintf("GET %s answered %d %.100q although its connection stays registered (only a refresh with invalid descriptors was refused)", path, resp.Code, resp.Body))
+					}
+					if r2 := wire.Serve(mux, wire.BodyRequest("GET", "/cz/v2/m0/v", "", nil, nil)); r2.Code != http.StatusNotFound {
+						viol("route-of-refused-registration-visible", fmt.Sprintf("GET /cz/v2/m0/v (declared only by the refused revision) answered %d", r2.Code))
 					}
 					continue
 				}
@@ -312,8 +386,10 @@ func runConnHistory(r *mon.Run, e *connEnv, rng *rand.Rand, readers, writers int
 					viol("route-without-handler", fmt.Sprintf("501 for /cx/m%d: the route was matched but no handler was found; the request was resolved against two different routing states or a torn one", meth))
 				case http.StatusNotFound, http.StatusBadRequest:
 				default:
-					// e.g. 503 while a backend connection is being torn down:
-					// not a routing observation
+					// the back-ends stay up and their connections open for
+					// the whole run (DropConn does not close them): nothing
+					// but 200 / 404 is explained by any routing state
+					viol(fmt.Sprintf("request-failed-with-live-backends:%d", resp.Code), fmt.Sprintf("GET /cx/m%d/v answered %d %.120q; every back-end is up, so whichever routing state the request saw it is either served or unrouted", meth, resp.Code, resp.Body))
 					continue
 				}
 				add(cop{c, connIn{"req", 0, meth}, out, a, b})
@@ -401,6 +477,33 @@ func runConnHistory(r *mon.Run, e *connEnv, rng *rand.Rand, readers, writers int
 			capture("RegConn(bad) refused")
 		}
 	}()
+	// refused refreshes of the registered switchable connection
+	ww.Add(1)
+	swSeed := rng.Int63()
+	go func() {
+		defer ww.Done()
+		lr := rand.New(rand.NewSource(swSeed))
+		for i := 0; i < 2; i++ {
+			time.Sleep(time.Duration(300+lr.Intn(3000)) * time.Microsecond)
+			ctx, cancel := context.WithTimeout(context.Background(), 20*time.Second)
+			var rerr error
+			pi := mon.Catch(func() { rerr = mux.RegisterConn(ctx, e.sw.CC) })
+			cancel()
+			if pi != nil {
+				viol(pi.Key(), "RegisterConn (refresh with an invalid revision) panicked: "+pi.Value)
+				return
+			}
+			smu.Lock()
+			script = append(script, fmt.Sprintf("ws:Refresh(sw,invalid)=%v", rerr != nil))
+			smu.Unlock()
+			if rerr == nil {
+				viol("invalid-backend-accepted", "re-registering a connection whose new revision has an invalid last method returned nil")
+				return
+			}
+			r.Count("refused_refreshes", 1)
+			capture("Refresh(sw) refused")
+		}
+	}()
 	// third writer: local registrations interleaved with the conn writers
 	var extraOK [nExtra]bool
 	ww.Add(1)
@@ -431,6 +534,22 @@ func runConnHistory(r *mon.Run, e *connEnv, rng *rand.Rand, readers, writers int
 	wg.Wait()
 
 	r.Count("probes_of_refused_routes", int(atomic.SwapInt64(&refusedProbes, 0)))
+	r.Count("probes_of_service_with_refused_refresh", int(atomic.SwapInt64(&refreshProbes, 0)))
+	for _, path := range []string{"/cz/m0/v", "/cz/last/v"} {
+		if resp := wire.Serve(mux, wire.BodyRequest("GET", path, "", nil, nil)); resp.Code != http.StatusOK {
+			viol("registered-service-disturbed-by-refused-refresh", fmt.Sprintf("GET %s answers %d after the run although its connection is still registered", path, resp.Code))
+			break
+		}
+	}
+	{
+		var was bool
+		ctx, cancel := context.WithTimeout(context.Background(), 20*time.Second)
+		mon.Catch(func() { was = mux.DropConn(ctx, e.sw.CC) })
+		cancel()
+		if !was {
+			viol("registered-connection-forgotten-after-refused-refresh", "DropConn reports the switchable connection as not registered after its refused refreshes")
+		}
+	}
 	{
 		var was bool
 		ctx, cancel := context.WithTimeout(context.Background(), 20*time.Second)
@@ -508,6 +627,121 @@ func runConnHistory(r *mon.Run, e *connEnv, rng *rand.Rand, readers, writers int
 	r.Distinct(fmt.Sprintf("conn/readers=%d/writers=%d/%s", readers, writers, cls))
 }
 
+// gatedRegistration: a RegisterConn whose reflection round trip is held open
+// by the harness. While it is in progress requests for everything that was
+// registered before must complete (they are resolved against the published
+// snapshot and never wait for the writer).
+func gatedRegistration(r *mon.Run, e *connEnv, k int) {
+	reg, err := vschema.Registry(e.fdL)
+	if err != nil {
+		r.Inconclusive("harness: " + err.Error())
+		return
+	}
+	mux, err := larking.NewMux(larking.FilesOption(reg))
+	if err != nil {
+		r.Inconclusive("harness: " + err.Error())
+		return
+	}
+	if err := larking.VerifRegisterService(mux, vschema.ServiceDesc(e.sdL, taggedImpl{"local"}), struct{}{}); err != nil {
+		r.Inconclusive("baseline registration: " + err.Error())
+		return
+	}
+	ctx, cancel := context.WithTimeout(context.Background(), 60*time.Second)
+	defer cancel()
+	if err := mux.RegisterConn(ctx, e.backs[0].CC); err != nil {
+		r.Inconclusive("RegisterConn(b1): " + err.Error())
+		return
+	}
+	entered := make(chan struct{}, 1)
+	release := make(chan struct{})
+	holdAt := k % 3 // which reflection request is held
+	var cnt int64
+	e.gated.ReflHook.Store(func(int) {
+		if int(atomic.AddInt64(&cnt, 1)-1) == holdAt {
+			select {
+			case entered <- struct{}{}:
+			default:
+			}
+			<-release
+		}
+	})
+	done := make(chan error, 1)
+	go func() {
+		var rerr error
+		pi := mon.Catch(func() { rerr = mux.RegisterConn(ctx, e.gated.CC) })
+		if pi != nil {
+			rerr = fmt.Errorf("panic: %s", pi.Value)
+		}
+		done <- rerr
+	}()
+	released := false
+	rel := func() {
+		if !released {
+			released = true
+			close(release)
+		}
+	}
+	defer func() {
+		rel()
+		e.gated.ReflHook.Store((func(int))(nil))
+		select {
+		case <-done:
+		case <-time.After(30 * time.Second):
+		}
+		mux.DropConn(ctx, e.gated.CC)
+	}()
+	select {
+	case <-entered:
+	case err := <-done:
+		r.Inconclusive(fmt.Sprintf("gated registration ended before the gate was reached: %v", err))
+		return
+	case <-time.After(20 * time.Second):
+		r.Inconclusive("gated registration never reached the reflection gate")
+		return
+	}
+	// the registration is now in progress and cannot finish
+	type probe struct {
+		name string
+		req  func() *http.Request
+		want int
+	}
+	probes := []probe{
+		{"local-http", func() *http.Request { return wire.BodyRequest("GET", "/cl/base/x", "", nil, nil) }, 200},
+		{"proxied-http", func() *http.Request { return wire.BodyRequest("GET", "/cx/m0/v", "", nil, nil) }, 200},
+		{"unrouted-http", func() *http.Request { return wire.BodyRequest("GET", "/nothing/here", "", nil, nil) }, 404},
+		{"local-grpc", func() *http.Request {
+			return wire.GRPCRequest("/vf.cl.L/Base", nil, bytes.NewReader(wire.Frame(nil, false)))
+		}, 200},
+	}
+	for round := 0; round < 3; round++ {
+		for _, p := range probes {
+			resc := make(chan *wire.Resp, 1)
+			go func() { resc <- wire.Serve(mux, p.req()) }()
+			select {
+			case resp := <-resc:
+				r.Count("requests_completed_while_a_registration_was_held_open", 1)
+				if resp.Panic != nil {
+					r.Violate(resp.Panic.Key(), p.name+" panicked while a registration was in progress: "+resp.Panic.Value, map[string]any{"probe": p.name, "held_reflection_request": holdAt})
+					return
+				}
+				if resp.Code != p.want {
+					r.Violate("wrong-answer-while-registration-in-progress:"+p.name, fmt.Sprintf("%s answered %d (want %d) while RegisterConn of another back-end was waiting for its reflection reply", p.name, resp.Code, p.want), map[string]any{"probe": p.name, "held_reflection_request": holdAt})
+					return
+				}
+			case err := <-done:
+				done <- err
+				r.Inconclusive("gated registration ended although the gate is closed")
+				return
+			case <-time.After(10 * time.Second):
+				r.Violate("request-waits-for-registration-in-progress:"+p.name, fmt.Sprintf("%s did not complete within 10 s while RegisterConn of another back-end was waiting for its reflection reply (reflection request #%d held); requests must be served from the published state, not wait for the writer", p.name, holdAt), map[string]any{"probe": p.name, "held_reflection_request": holdAt})
+				return
+			}
+		}
+	}
+	r.Eval(1)
+	r.Distinct(fmt.Sprintf("gated-registration/held-request=%d", holdAt))
+}
+
 func connLane(r *mon.Run) {
 	e, err := newConnEnv()
 	if err != nil {
@@ -515,6 +749,9 @@ func connLane(r *mon.Run) {
 		return
 	}
 	defer e.Close()
+	for k := 0; k < r.Pick(3, 30); k++ {
+		gatedRegistration(r, e, k)
+	}
 	rng := r.Rand("c12-conn")
 	n := r.Pick(6, 300)
 	for i := 0; i < n; i++ {
